@@ -91,9 +91,15 @@ def _inlinable(prog, f, call, stack, keep=()):
         return None
     root = _unrolled(h)
     for x in ast.walk(root):
-        if isinstance(x, (ast.Yield, ast.YieldFrom, ast.Global, ast.Nonlocal, ast.Try, ast.With, ast.For, ast.While,
-                          ast.ListComp, ast.DictComp, ast.SetComp, ast.GeneratorExp)):
+        if isinstance(x, (ast.Yield, ast.YieldFrom, ast.Global, ast.Nonlocal, ast.Try, ast.With, ast.For, ast.While)):
             return None      # only straight-line glue is inlined: loops are algorithms with their own rules
+        if isinstance(x, (ast.ListComp, ast.DictComp, ast.SetComp, ast.GeneratorExp)):
+            # a comprehension is carried along when its variables cannot be confused with the helper's names
+            own = {y.id for g_ in x.generators for y in ast.walk(g_.target) if isinstance(y, ast.Name)}
+            if own & (set(h.params) | set(h.kwonly) | {y.id for s_ in root.body for y in ast.walk(s_)
+                                                       if isinstance(y, ast.Name) and isinstance(y.ctx, ast.Store) and
+                                                       not any(y is z for g_ in x.generators for z in ast.walk(g_.target))}):
+                return None
         if isinstance(x, ast.FunctionDef) and x is not root:
             return None
         if isinstance(x, ast.Lambda):
